@@ -40,6 +40,10 @@ def datasets(rng, shape, nds, fail, nan=False, plain_dims=False):
     if fortran:
         # the same numbers in another memory layout
         base, err = np.asfortranarray(base), np.asfortranarray(err)
+    # single precision data (all the numbers used are exactly representable)
+    f32 = rng.random() < 0.12
+    if f32:
+        base, err = np.float32(base), np.float32(err)
     ref = Dataset(base, err, bins=bins, name=names[0], what='flux')
     dsets, masks = [], []
     for k in range(nds):
@@ -68,6 +72,8 @@ def datasets(rng, shape, nds, fail, nan=False, plain_dims=False):
             val, derr = np.asfortranarray(val), np.asfortranarray(derr)
         if not shape:
             val, derr = np.float64(val), np.float64(derr)
+        if f32:
+            val, derr = np.float32(val), np.float32(derr)
         dsets.append(Dataset(val, derr, bins=bins, name=names[k + 1],
                              what='flux'))
         masks.append(mask.reshape(shape))
